@@ -37,6 +37,9 @@ def collect(props):
             with open(meta) as fh:
                 m = json.load(fh)
             out.append(("seeded/" + os.path.basename(d), m["property"], patch))
+            for other in m.get("also_checked_by", []):
+                # a change written against one property that is (also) visible to another property's check
+                out.append(("seeded/" + os.path.basename(d), other, patch))
     return [x for x in out if not props or x[1] in props]
 
 
